@@ -25,7 +25,7 @@ MANIFEST = {
             'units are reported at counter + in-stride position; stride functions answer None only when passed tests cover the whole stride. '
             'Exactness of the converted values (arithmetic, SIMD lane operations) is not decided here. ' 
             '(R-UTF8STORE) the hand-inlined UTF-8 writers (convert_utf16_to_utf8_partial_inner/_tail behind every UTF-16 -> UTF-8 conversion and the UTF-8 encoder, convert_latin1_to_utf8_partial, convert_unaligned_utf16_to_utf8 of the UTF-16 decoder, and the three multi-byte writers of Utf8Destination) store, for every scalar of the domain the path conditions leave (80-7FF, 800-FFFF, the supplementary planes through the shape-checked surrogate-pair formula), exactly the bytes of its UTF-8 encoding: each stored byte is evaluated as an exact piecewise function of the input and compared piece by piece over the whole domain; constant runs are one complete sequence (EF BF BD). ' 
-            '(R-DIM) dimension inference over the index arithmetic of the 40-odd slice-to-slice converter bodies (mem, utf_8, ascii, single_byte, x_user_defined, the unaligned UTF-16 helpers): every usize quantity is a source position/length, a destination position/length, a count valid in both or a constant (least fixpoint over the loop-carried locals, seeded by which buffer a local indexes); no sum or difference mixes a source and a destination quantity, each buffer is indexed and re-sliced only with its own quantities, a (read, written) result returns a source quantity first and a destination quantity second, and a single local indexes both buffers only in the three 1:1 conversions (frozen with reasons). A path that advances a source position and returns has stored something or advanced the destination position (R-DIM.consume); inside a loop that walks a buffer with a loop-carried position every index into that buffer depends arithmetically on such a position, not on a count alone (R-DIM.relative, 266 index sites in handles/mem/utf_8/single_byte/ascii). (R-UTF8ASM) every place that assembles a value from the bytes of a UTF-8 sequence (OR/ADD of shifted byte terms) has the shifts 6(n-1)..0, a lead term equal to byte-C0/E0/F0 on the n-byte leads and continuation terms equal to byte-80 on 80-BF, compared as exact functions over the byte domains, loaded from consecutive positions where the loads resolve (here: mem::convert_str_to_utf16, convert_utf8_to_latin1_lossy, utf_8::convert_utf8_to_utf16_up_to_invalid, 9 sites). (R-REPAIR) ensure_utf16_validity returns only on a path that has compared its scan position with buffer.len() with no constant offset, on the edge meaning reached (an early exit would keep an unpaired surrogate in the last unit).',
+            '(R-DIM) dimension inference over the index arithmetic of the 40-odd slice-to-slice converter bodies (mem, utf_8, ascii, single_byte, x_user_defined, the unaligned UTF-16 helpers): every usize quantity is a source position/length, a destination position/length, a count valid in both or a constant (least fixpoint over the loop-carried locals, seeded by which buffer a local indexes); no sum or difference mixes a source and a destination quantity, each buffer is indexed and re-sliced only with its own quantities, a (read, written) result returns a source quantity first and a destination quantity second, and a single local indexes both buffers only in the three 1:1 conversions (frozen with reasons). A path that advances a source position and returns has stored something or advanced the destination position (R-DIM.consume); inside a loop that walks a buffer with a loop-carried position every index into that buffer depends arithmetically on such a position, not on a count alone (R-DIM.relative, 266 index sites in handles/mem/utf_8/single_byte/ascii). (R-UTF8ASM) every place that assembles a value from the bytes of a UTF-8 sequence (OR/ADD of shifted byte terms) has the shifts 6(n-1)..0, a lead term equal to byte-C0/E0/F0 on the n-byte leads and continuation terms equal to byte-80 on 80-BF, compared as exact functions over the byte domains, loaded from consecutive positions where the loads resolve (here: mem::convert_str_to_utf16, convert_utf8_to_latin1_lossy, utf_8::convert_utf8_to_utf16_up_to_invalid, 9 sites). (R-REPAIR) ensure_utf16_validity returns only on a path that has compared its scan position with buffer.len() with no constant offset, on the edge meaning reached (an early exit would keep an unpaired surrogate in the last unit). Also run here: R-INV over the Utf8Decoder slow path (behind mem::convert_utf8_to_utf16) and R-STRSAFE.scrub over the &mut str conversions of mem.',
     'note': 'Trusted: rustc MIR, mirx, rule library; the doc comments of src/mem.rs as the statement of the partial-output contract.',
     'technique': 'per-configuration effect analysis over the call graph + information-flow rule + exact interval extraction of surrogate tests',
 }
@@ -86,4 +86,7 @@ def run(rep, facts, tier):
         import r_repair
         rep.floor('R-REPAIR', 'returning paths of ensure_utf16_validity', r_repair.run(rep, f, c), 1, c)
         r_dim.run(rep, f, c)
+        import r_inv, r_strsafe
+        r_inv.run(rep, f, c, 'R-INV')
+        r_strsafe.scrub(rep, f, c, 'R-STRSAFE.scrub')
     return ('other', MANIFEST['text'], [])
